@@ -60,3 +60,30 @@ Definition cut_to (room : option nat) (stream : bytes) : bytes :=
   match room with None => stream | Some r => firstn r stream end.
 Definition wire_spec (ms : list bytes) (room : option nat) : bytes := cut_to room (write_all ms).
 Definition json_wire_spec (vs : list bytes) (room : option nat) : bytes := cut_to room (json_write_all vs).
+
+(* ---------- JSON: the schedule-free expected result for ANY byte string ----------
+   What is asked of the scanner oracle here is only that its verdict on a buffer is not
+   revised when more bytes arrive behind it. *)
+Definition scanner_stable (scan : bytes -> scan_res) : Prop :=
+  (forall b v rest x, scan b = SComplete v rest -> scan (b ++ x) = SComplete v (rest ++ x)) /\
+  (forall b x, scan b = SInvalid -> scan (b ++ x) = SInvalid).
+
+Definition json_ending (t : tail_t) (pending_non_space : bool) : jfinal :=
+  match t with
+  | TEOF => JFErr (if pending_non_space then MUnexpected else MEOF)
+  | TFail => JFErr MIO
+  | TBlock => JFBlock
+  end.
+
+Fixpoint json_spec (scan : bytes -> scan_res) (fuel : nat) (t : tail_t) (d : bytes) : list bytes * jfinal :=
+  match fuel with
+  | O => ([], JFFuel)
+  | S f =>
+    match scan d with
+    | SComplete v rest => let (vs, e) := json_spec scan f t rest in (v :: vs, e)
+    | SInvalid => ([], JFSyntax)
+    | SNeedMore => ([], json_ending t (non_space d))
+    end
+  end.
+Definition json_expected (scan : bytes -> scan_res) (t : tail_t) (d : bytes) : list bytes * jfinal :=
+  json_spec scan (S (length d)) t d.
